@@ -219,7 +219,7 @@ impl<S: Storage> Builder<S> {
     fn build_id_subscriber(&mut self, id: Id) -> StreamSubscriber {
         use Expr::*;
         let stream = match self.node(id).clone() {
-            Scan([table, list, filter]) => {
+            Scan([table, list, filter_id]) => {
                 let table_id = self.node(table).as_table();
                 let columns = (self.node(list).as_list().iter())
                     .map(|id| self.node(*id).as_column())
@@ -228,7 +228,7 @@ impl<S: Storage> Builder<S> {
                 let filter = {
                     use std::ops::Bound;
                     let mut egraph = egg::EGraph::new(ExprAnalysis::default());
-                    let root = egraph.add_expr(&self.recexpr(filter));
+                    let root = egraph.add_expr(&self.recexpr(filter_id));
                     let expr: Option<crate::storage::KeyRange> =
                         egraph[root].data.range.clone().map(|(_, r)| r);
                     if matches!(
@@ -272,13 +272,25 @@ impl<S: Storage> Builder<S> {
                     }
                     .execute()
                 } else {
-                    TableScanExecutor {
+                    // A condition pushed into the scan that does not denote a key range (e.g. a
+                    // contradictory range folded to `false`) cannot be handed to the storage
+                    // engine: evaluate it on the scanned rows instead of dropping it.
+                    let residual =
+                        (filter.is_none() && self.node(filter_id) != &Expr::true_()).then_some(filter_id);
+                    let scan = TableScanExecutor {
                         table_id,
                         columns,
                         filter,
                         storage: self.storage.clone(),
                     }
-                    .execute()
+                    .execute();
+                    match residual {
+                        Some(cond) => FilterExecutor {
+                            condition: self.resolve_column_index(cond, id),
+                        }
+                        .execute(scan),
+                        None => scan,
+                    }
                 }
             }
 
